@@ -258,6 +258,13 @@ class KroneckerProductLinearOperator(LinearOperator):
             res = left_tensor @ res
         return res
 
+    def _mul_constant(
+        self: Float[LinearOperator, "*batch M N"], other: Union[float, torch.Tensor]
+    ) -> Float[LinearOperator, "*batch M N"]:
+        # c (A \kron B) = (c A) \kron B: the product stays a Kronecker product, so that operators built on its
+        # factors (sums with diagonals, sums of Kronecker products) keep working after a scalar multiplication
+        return self.__class__(self.linear_ops[0]._mul_constant(other), *self.linear_ops[1:], **self._kwargs)
+
     def _logdet(self: Float[LinearOperator, "*batch M N"]) -> Float[Tensor, " *batch"]:
         evals, _ = self.diagonalization()
         logdet = evals.clamp(min=1e-7).log().sum(-1)
